@@ -233,6 +233,9 @@ impl <'a, N: Num + NumCast + NumAssignOps + Copy> SparseBinnedCoverage<'a, N> {
     }
 
     pub fn get_chrom(&self, index: usize) -> Option<&str> {
+        if index >= self.len {
+            return None;
+        }
         match self.accu_size.binary_search(&index) {
             Ok(j) => {
                 if j < self.len {
@@ -252,13 +255,16 @@ impl <'a, N: Num + NumCast + NumAssignOps + Copy> SparseBinnedCoverage<'a, N> {
     }
 
     pub fn get_region(&self, index: usize) -> Option<GenomicRange> {
+        if index >= self.len {
+            return None;
+        }
         let region = match self.accu_size.binary_search(&index) {
             Ok(j) => {
                 if j < self.len {
                     let site = &self.intervals[j];
                     let chr = site.chrom();
                     let start = site.start();
-                    let end = (start + self.bin_size).min(site.end());
+                    let end = start.saturating_add(self.bin_size).min(site.end());
                     Some(GenomicRange::new(chr, start, end))
                 } else {
                     None
@@ -270,7 +276,7 @@ impl <'a, N: Num + NumCast + NumAssignOps + Copy> SparseBinnedCoverage<'a, N> {
                     let chr = site.chrom();
                     let prev = self.accu_size[j-1];
                     let start = site.start() + ((index - prev) as u64) * self.bin_size;
-                    let end = (start + self.bin_size).min(site.end());
+                    let end = start.saturating_add(self.bin_size).min(site.end());
                     Some(GenomicRange::new(chr, start, end))
                 } else {
                     None
